@@ -330,7 +330,24 @@ func (ab actionsBuilder) prepareProcessorActions(oldConfig, newConfig config.Pro
 		return nil
 	}
 
-	// the processor changed, and all parts of a processor are updateable
+	// the condition can only be set when a processor is created (the processor
+	// service has no way to update it), recreate the processor if it changed
+	if oldConfig.Condition != newConfig.Condition {
+		return []action{
+			deleteProcessorAction{
+				cfg:              oldConfig,
+				parent:           parent,
+				processorService: ab.processorService,
+			},
+			createProcessorAction{
+				cfg:              newConfig,
+				parent:           parent,
+				processorService: ab.processorService,
+			},
+		}
+	}
+
+	// the processor changed, and all other parts of a processor are updateable
 	return []action{updateProcessorAction{
 		oldConfig:        oldConfig,
 		newConfig:        newConfig,
